@@ -135,6 +135,7 @@ type VC struct {
 	inputs  []InputVar
 	structs map[string]*StructInfo
 	strLits map[string]Term
+	defs    map[string]Term
 }
 
 type StructInfo struct {
@@ -148,7 +149,7 @@ type StructInfo struct {
 func NewVC(ld *Loader, pkg *Pkg, mode, fn string) *VC {
 	return &VC{ld: ld, pkg: pkg, mode: mode, fn: fn, declSet: map[string]string{}, dtSet: map[string]bool{},
 		usorts: map[string]bool{}, funSet: map[string]bool{}, ordinal: map[string]int{}, kinds: map[string]*Kind{},
-		structs: map[string]*StructInfo{}}
+		structs: map[string]*StructInfo{}, defs: map[string]Term{}}
 }
 
 func (vc *VC) idx() string {
